@@ -236,6 +236,21 @@ def closed_case(ctx, rng, idx):
         elif isinstance(r, _Raised) and N > 2 and (dy or D >= 3):
             ctx.check("C15:closed-form", False, f"C15:degree_sequence(expected):raised:{type(r.e).__name__}", lambda: wit(r))
     ctx.check("C15:closed-form", np.array_equal(u, u0) and np.array_equal(w, w0), "C15:closed-form-call-mutated-parameters", wit)
+    # the SAME model object after its parameters were rescaled in place (what the sampler's allow_rescaling does): every
+    # quantity is a function of the current u and w, not of what they were at an earlier query
+    if rng.random() < 0.4:
+        c_u, c_w = rng.choice([2.0, 0.5, 3.0]), rng.choice([1.0, 4.0, 0.25])
+        m.u *= c_u
+        m.w *= c_w
+        ctx.event("queried-again-after-in-place-rescaling")
+        scale = c_u * c_u * c_w
+        r = call(m.poisson_params, B[:, sub])
+        if not isinstance(r, _Raised):
+            closeS(ctx, "C15:closed-form", np.asarray(r) / scale, L[sub], "C15:poisson_params:stale-after-in-place-rescaling", wit)
+        r = call(m.expected_degree, per_node=False, d="all")
+        if not isinstance(r, _Raised) and N > 2:
+            refd = sum(L[j] / kap[j] * len(e) for j, e in enumerate(E)) / N
+            closeS(ctx, "C15:closed-form", r / scale, refd, "C15:expected_degree(average):stale-after-in-place-rescaling", wit)
     if D >= 3 and ((u0 == 0).any() or K >= 2):
         ctx.distinct_add(("closed", N, K, D, u0.tobytes(), w0.tobytes()))
     if idx % 150 < 2:
@@ -300,6 +315,7 @@ def fit_case(ctx, rng, idx):
     assortative = rng.random() < 0.5
     w_prior = rng.choice([0.0, 0.0, 1.0, 1.0, 0.3, 5.0])
     u_prior = rng.choice([0.0, 1.0])
+    prior_as_array = rng.random() < 0.3
     mode = rng.choice(["u-supplied", "u-supplied", "u-supplied", "both-inferred", "w-supplied", "both-supplied"])
     give_max = rng.random() < 0.5
     D_given = rng.randint(dmax, min(N, dmax + 3)) if give_max else None
@@ -326,7 +342,7 @@ def fit_case(ctx, rng, idx):
     data = list(zip(edges, wts))
 
     def wit(extra=None):
-        return {"N": N, "K": K, "edges": edges if len(edges) <= 30 else len(edges), "weights": wts if len(edges) <= 30 else None, "assortative": assortative, "w_prior": w_prior, "u_prior": u_prior,
+        return {"N": N, "K": K, "edges": edges if len(edges) <= 30 else len(edges), "weights": wts if len(edges) <= 30 else None, "assortative": assortative, "w_prior": w_prior, "w_prior_as_KxK_array": prior_as_array and w_prior > 0, "u_prior": u_prior,
                 "mode": mode, "max_hye_size": D_given, "seed": seed, "fit_kwargs": fit_kw, "u": None if u_in is None else u_in.tolist(),
                 "w": None if w_in is None else w_in.tolist(), "extra": repr(extra)[:900]}
 
@@ -372,6 +388,8 @@ def fit_case(ctx, rng, idx):
             uu = None if u_in is None else u_in.copy()
             ww = None if w_in is None else w_in.copy()
             kw = dict(K=K, u=uu, w=ww, assortative=assortative, max_hye_size=D_given, u_prior=u_prior, w_prior=w_prior, seed=seed)
+            if prior_as_array and w_prior > 0:
+                kw["w_prior"] = np.full((K, K), float(w_prior))  # the same rate for every entry, in the documented array form
             m = call(mm.HyMMSBM, **kw)
             if isinstance(m, _Raised):
                 ctx.check("C15:fit-iterate", False, f"C15:fit:constructor-raised:{type(m.e).__name__}", lambda: wit(m))
